@@ -96,6 +96,52 @@ CLAIMS = {
   note=TRUST + "Assumed: strconv/fmt/reflect.Convert semantics; Go's identifier resolution (go/types) is the oracle for the tables.",
   technique="contract-based deductive verification: loop invariants for the progression, ground obligations from the typed AST for the tables, z3/cvc5",
   ref="4 C19"),
+ 'C01': dict(
+  text="Deductive proof of panic-freedom obligations over 130 functions of parser (scanner/lexer), env, vm (every statement/expression evaluator, call machinery, conversions, operators) and core.Import: every nil dereference, index/slice bound, "
+       "integer division, make size, type assertion, explicit panic, and every precondition of a trusted reflect operation that panics (Value.Int/Len/Index/Elem/IsNil/Field/MapIndex/Set.../Type.Elem/Key/In... stated as requires over the kind observers) is an obligation "
+       "under the contracts of the callees; every `go` statement must start with a recover (spawn obligations) and every reflect call of a function value must sit inside a recover region (calleeMayPanic). About 93% of the generated obligations discharge and are claimed "
+       "(3180 of 3414 when the baseline was written); the remaining ones are listed as unproved in the baseline, are NOT claimed and are reported as such in the evidence: they are mostly reflect assignability/convertibility preconditions "
+       "(Value.Set, Convert, Call argument types, MapIndex key types, FuncOf limits), which need a model of Go's type relation that the contracts do not have. The proof effort found five genuine panics, all repaired by fix: commits "
+       "(var with fewer values than names, *x = v on a non-pointer, member assignment on a map with non-string keys, f(...) spread with no arguments, go f.Call of a panicking Go function). "
+       "The property as a whole (NO panic escapes) is therefore decided only up to the listed unproved obligations and the trusted goyacc driver; the check guards the claimed obligations against regressions.",
+  note=TRUST + "Assumed: the goyacc driver yyParse and its semantic actions do not panic (not under contract); reflect operations panic only under the conditions written in /verif/trusted/reflect.spec; host functions bound into the environment may panic (calleeMayPanic is unconstrained) "
+       "and must be contained by a recover region; runtime faults from memory/stack exhaustion and concurrent map access are outside (as in the property).",
+  technique="contract-based deductive verification: safety obligations (nil/index/division/reflect-precondition/spawn) generated from go/ssa for every function under contract, z3/cvc5",
+  ref="4 C01"),
+ 'C05': dict(
+  text="Deductive proof, for all operand values, that the operator functions compute the property's table: spec functions give the result of each operator on the abstract views (rvInt, rvFloat, rvStr) of the unwrapped operands; postconditions of "
+       "invokeAddOperator / invokeMultiplyOperator / invokeComparisonOperator / invokeUnaryExpr (selected by the operator string and the operand kinds) state: int op int is the wrapped 64-bit result (wrap64 of the exact integer result for + - *, Go's % with the zero-divisor error, "
+       "& | as the uninterpreted band/bor of exactly the two operands, shifts with the count taken as unsigned), / is the float quotient of the two operands converted by i2f, + - * and < <= > >= are carried out on asF() (float64, SMT floating point) as soon as one operand is a float and exactly on integers otherwise, "
+       "string + string/number concatenates with the default formatting (uninterpreted sprintI of the operand), string * n is strRepeat; the int64 cache is proved (loop invariant in the package initialiser + global invariant) to hold exactly value i-1 at slot i so the fast path int64Value returns the same value as the general path; "
+       "conversion helpers toInt64/toFloat64/toString/tryTo* have case-table contracts. A seeded change (>= computed in float for large ints) and 7 mutants are caught.",
+  note=TRUST + "Assumed: reflect.Value observers (Int/Float/String/Kind) are functions of the value; i2f/f2i (int<->float conversion), band/bor/shl/shr, fmt.Sprint and strings.Repeat are uninterpreted functions, so what is proved is that the code applies THE RIGHT operation to THE RIGHT operands in THE RIGHT domain, "
+       "not bit-level facts about those operations (those are Go's).",
+  technique="contract-based deductive verification: operator postconditions against spec functions over value observers, z3 (FP theory)/cvc5",
+  ref="4 C05"),
+ 'C06': dict(
+  text="Deductive proof that == and != decide one relation eqV, written from the property statement over the value observers: nil equals only nil; int64/int64, string/string, bool/bool compare by Go's ==; int/float pairs compare numerically in float64 (feq of asF, i.e. exactly when <= and >= both hold); "
+       "pointer/interface operands are compared through what they hold. vm.equal's postcondition is result == eqV(l, r) on nil and core pairs, invokeComparisonOperator's == returns exactly eqV and != exactly its negation on the operands as evaluated (activation trace), isNil/isNum/tryToBool have definitional contracts, "
+       "and the lemma 'eqV is symmetric' is discharged by the solver. The proof found int==float comparing string renderings; repaired by a fix: commit. "
+       "NOT decided: container structural equality (reflect.DeepEqual is abstracted as eqOther, ASSUMED symmetric), string-vs-number equality (falls under eqOther), and that `in` and `switch` use the same relation (their evaluators call equal - checked only as call structure, not as a postcondition).",
+  note=TRUST + "Assumed: eqOther (DeepEqual and the mixed string/number path) is symmetric; reflect observers are functions of the value.",
+  technique="contract-based deductive verification: postcondition result == eqV(...) plus a symmetry lemma, z3/cvc5",
+  ref="4 C06"),
+ 'C07': dict(
+  text="Deductive proof over the per-activation trace of direct invokeExpr calls (a ghost sequence of callee, argument, results maintained by the generator at every call instruction): for binary operators, list and map literals, item/slice/len expressions, ternary, nil-coalescing, unary, return lists, var right-hand sides, "
+       "makeCallArgs/callVMFunctionDirect/anonCallExpr: the k-th evaluation of the activation is of the k-th operand in source order (evalsPrefix as loop invariant and postcondition: so no operand is evaluated twice or out of order), evaluation stops at the first operand that failed (okButLast), "
+       "&& / || evaluate the right operand only when the left does not decide (ncalls()==1 exactly in the short-circuit case), ?: evaluates exactly one branch chosen by the truthiness of the condition, ?? evaluates the right side only when the left is nil or failed. "
+       "A change that evaluates an operand twice, swaps two operands, evaluates after an error or evaluates a skipped operand fails a named postcondition or invariant. "
+       "NOT yet under trace contracts: multi-assignment right-hand sides (runLetsStmt), slice-expression bounds, go/defer call forms, the reflect (>=5 parameters, variadic) call path beyond makeCallArgs, conversion-error ordering for Go parameters.",
+  note=TRUST + "The trace is local to an activation and is never assumed about a callee (a callee's trace-based postcondition is proved where it is defined and not used at call sites). Assumed: AST well-formedness (len(Keys)==len(Values)).",
+  technique="contract-based deductive verification: ghost activation trace with loop invariants over evaluation order, z3/cvc5",
+  ref="4 C07"),
+ 'C20': dict(
+  text="Deductive proof for the operator positions: every postcondition of the four operator evaluators (binary add/multiply/comparison, unary) is stated over unwrap(operand) - the value an interface-typed element or result wraps - and never over the operand as obtained, so it holds identically for a direct and a wrapped operand; "
+       "a code path that inspects the kind of the operand before unwrapping fails it (this is how the unary-operator defect was found; repaired by a fix: commit). "
+       "NOT decided here: the same statement for index/slice/call/range/assignment positions and for values returned by Go functions declared interface{} (their evaluators are under safety and scope contracts only); dynamic type preservation through containers is not expressed.",
+  note=TRUST + "Assumed: reflect.Value.Elem of a non-nil interface value yields the wrapped value (trusted reflect contract).",
+  technique="contract-based deductive verification: operator postconditions over unwrap(operand), z3/cvc5",
+  ref="4 C20"),
  'C15': dict(
   text="Deductive proof, for all inputs, of the scanner/lexer half of the property: every Scanner method, Lexer.Lex/Error, Parse and ParseSrc "
        "is symbolically executed from the SSA of /repo's working tree against contracts kept in parser/zz_contracts_verif.go; obligations: memory "
